@@ -29,7 +29,7 @@ def setup(ctx):
     solvelog.BUDGET["steps"] = 3000
     ctx.on_begin.append(solvelog.reset)
     ctx.require("step-advance", "snapshot-times", "snapshot-origin", "nit", "stop", "caller-field", "snapshot-it", "start-time-request",
-                "dense-requests", "restart")
+                "dense-requests", "restart", "request-on-trajectory-time")
 
 
 def teardown(ctx):
@@ -110,8 +110,11 @@ def check_log(ctx, log, iname, fresh_solver=None, expect_restart=False):
     ok = len(got) == len(expected) and all(abs(g - e) <= 4 * ulp(abs(e) + abs(tstart)) for g, e in zip(got, expected))
     key = "solve/snapshot-times"
     if not ok:
-        key += "/dense-requests" if dense else ("/request-at-start-time" if atstart else "/other")
+        ontraj = any(any(t == tr["time"] for tr in traj[1:]) for t in expected)
+        key += "/dense-requests" if dense else ("/request-at-start-time" if atstart else "/request-on-trajectory-time" if ontraj else "/other")
     ctx.true("snapshot-times", ok, key, {"requested in range": expected, "returned": got, "trajectory times": [t["time"] for t in traj]}, cls="snapshot-times")
+    if any(any(t == tr["time"] for tr in traj[1:]) for t in expected):
+        ctx.ev("request-on-trajectory-time")
     if dense:
         ctx.ev("dense-requests")
     if atstart:
@@ -192,11 +195,21 @@ def _tsave(rng, times, kind):
         return [t0 - 2.0 * step, t0 - 0.5 * step]
     if kind == "before-and-after":
         return [t0 - 0.7 * step] + sorted(inside(int(rng.integers(0, n)), float(rng.uniform(0.05, 0.9))) for _ in range(2))
+    if kind == "on-trajectory":
+        # requests that the trajectory reaches EXACTLY (bitwise): end of a full step, possibly the step that ends the run
+        ks = sorted(set(int(k) for k in rng.integers(1, n + 1, int(rng.integers(1, 4)))))
+        ts = [times[k] for k in ks]
+        if rng.random() < 0.5:
+            ts = sorted(set(ts + [inside(int(rng.integers(0, n)), float(rng.uniform(0.05, 0.9)))]))
+        if rng.random() < 0.3:
+            ts = [t0] + ts
+        return ts
     # random
     return sorted(inside(int(rng.integers(0, n)), float(rng.uniform(0.05, 0.9))) for _ in range(int(rng.integers(1, 6))))
 
 
-TS_KINDS = ["empty", "start-only", "with-start", "dense", "ulp-close", "beyond", "before-start", "before-and-after", "random", "random", "dense"]
+TS_KINDS = ["empty", "start-only", "with-start", "dense", "ulp-close", "beyond", "before-start", "before-and-after", "random", "random", "dense",
+            "on-trajectory", "on-trajectory"]
 
 
 @group(quick=1500, thorough=60000)
